@@ -17,8 +17,8 @@ import (
 // Verification hooks for property C16 (font index persistence, corruption, incremental refresh).
 // Add-only: nothing here is compiled without the `verif` build tag.
 
-// VerifPage mirrors runePage.
-type VerifPage struct {
+// VerifIndexPage mirrors runePage.
+type VerifIndexPage struct {
 	Ref uint16    `json:"ref"`
 	Set [8]uint32 `json:"set"`
 }
@@ -29,7 +29,7 @@ type VerifIndexFootprint struct {
 	Index    uint16      `json:"index"`
 	Instance uint16      `json:"instance"`
 	Family   string      `json:"family"`
-	Runes    []VerifPage `json:"runes"`
+	Runes    []VerifIndexPage `json:"runes"`
 	Scripts  []uint32    `json:"scripts"`
 	Langs    [8]uint64   `json:"langs"`
 	Style    uint8       `json:"style"`
@@ -82,9 +82,9 @@ func verifFootprint(fp Footprint) VerifIndexFootprint {
 		Weight:  math.Float32bits(float32(fp.Aspect.Weight)),
 		Stretch: math.Float32bits(float32(fp.Aspect.Stretch)),
 	}
-	out.Runes = make([]VerifPage, len(fp.Runes))
+	out.Runes = make([]VerifIndexPage, len(fp.Runes))
 	for i, p := range fp.Runes {
-		out.Runes[i] = VerifPage{Ref: p.ref, Set: [8]uint32(p.set)}
+		out.Runes[i] = VerifIndexPage{Ref: p.ref, Set: [8]uint32(p.set)}
 	}
 	out.Scripts = make([]uint32, len(fp.Scripts))
 	for i, s := range fp.Scripts {
